@@ -80,6 +80,9 @@ def run_spec(ctx, mons, spec):
         if res["picture"] is None:
             ctx.judge(stratum, INCONCLUSIVE, case, reason="document not parseable: %s" % res["parse_error"])
             continue
+        if res["picture"].defects:
+            ctx.judge(stratum, VIOLATED, case, finding=[{"rule": "document-defect", "defects": res["picture"].defects[:4]}], key="document-defect")
+            continue
         if EC.uses_time_of_day_inputs(spec) and dt.date.today() != today:
             ctx.judge(stratum, INCONCLUSIVE, case, reason="civil date changed during the case")
             continue
